@@ -20,15 +20,24 @@ TECHNIQUE = ('runtime post-condition monitors evaluating the assertion list of t
              '(dt, target) workload around integer quotients')
 RULE = ('cases = (values, dt, target_dt, even, entry point) calls of the real functions through the public names. '
         '(dt, target) from: a fixed list (dt=0.01 with targets 0.004999/0.005/0.005001/0.0033334/0.00333333..., float-trap '
-        'pairs such as 0.07/0.01, decimal multiples k*u : u for k<=60, the decimal grid 0.001..0.1 x 0.001..0.3) and '
-        'random families (quotient = integer*(1 +- 10^-3..10^-12) on the refinement and on the decimation side, +-1..3 '
-        'ulp neighbours of exact quotients, exact multiples k<=60, reciprocal steps 1/k with targets m/k, log-uniform, '
-        'dt == target). Lengths from ceil(2*max(dt,target)/dt)+1 to +200, odd and even, divisible and not divisible by '
-        'the decimation factor; records from the shared classes. Fourier cases: random harmonics up to (and including) '
-        'the highest index below both Nyquist frequencies. distinct = digest(values, dt, target, even, entry point); '
-        'non-trivial = non-constant record.')
+        'pairs such as 0.07/0.01, decimal multiples k*u : u for k<=60 and for units 1e-9..1e3, the decimal grid 0.001..0.1 x '
+        '0.001..0.3) and random families (quotient = integer*(1 +- 10^-2..10^-13) on the refinement and on the decimation '
+        'side, +-1..3 ulp neighbours of exact quotients, exact multiples k<=60, reciprocal steps 1/k with targets m/k, '
+        'log-uniform, dt == target), 30% of them rescaled by 2^j (exact) or 10^u so that dt spans 1e-9..1e3. Lengths from '
+        'the shortest record of the quantifier ceil(2*max(dt,target)/dt)+1 (driven on purpose) to +200, odd and even, '
+        'around powers of two, divisible and not divisible by the decimation factor, a few past 2**16. Records from the '
+        'shared classes plus ramps, plateau ends, extreme at the first/last sample, sign change at the end; amplitudes '
+        '1e-12..1e12, large offsets on small signals. Array arguments as float64/float32/int64/int32/int16/int8/uint8/'
+        'uint16 (using the whole dtype range), lists/tuples of floats, of ints, mixed, strided and reversed views, '
+        'read-only arrays; even as bool, numpy bool and 0/1; positional, keyword and defaulted arguments. The same array '
+        'object reused in consecutive calls; histories of calls on one AccSignal (and twins built from the same caller '
+        'array) interleaved with cache reads, mutators and regenerations; two same-shape inputs back to back with the first '
+        'result re-read afterwards. Fourier cases: random harmonics up to (and including) the highest index below both '
+        'Nyquist frequencies. distinct = digest(values, dt, target, even, entry point); non-trivial = non-constant record.')
 ASSUMPTIONS = ['finite real input, dt > 0, target_dt > 0, duration (n-1)*dt >= 2*max(dt, target_dt); other calls are '
                'counted, not judged',
+               'every call is judged against a copy of its array argument (the signal object\'s values and dt) taken at '
+               'call entry; the oracle reads no derived cache of the object (npts, time, spectra)',
                '"subsequence when decimating" = the stride-m samples x[0], x[m], ... optionally followed by the final '
                'sample x[n-1] (what clamping at the record end produces), values within 1e-9*range',
                '"band-limited below the new Nyquist frequency" is read as below BOTH Nyquist frequencies (content above '
@@ -37,25 +46,37 @@ ASSUMPTIONS = ['finite real input, dt > 0, target_dt > 0, duration (n-1)*dt >= 2
                'even length is asserted for the interpolation variants only (the statement does not claim it for the '
                'Fourier variant; odd Fourier results with even=True are counted as an observation)',
                'known finding K6 also absorbs the even=True case in which the FFT grid had len(y)+1 points before the '
-               'parity trim (same mechanism: only the claimed step is wrong)']
+               'parity trim (same mechanism: only the claimed step is wrong)',
+               'band-limited reproduction: <= 1e-10*max|x| for float64 and integer samples; for float32 samples <= '
+               '64*eps32*max|x| with harmonics below 2*eps32*max|x| counted as absent ("exactly" = to rounding of the '
+               'arithmetic the samples are given in; the reference is built from the float32-rounded samples in float64)',
+               '"keeps the record" includes: the array argument / the signal object is bit-for-bit unchanged by the call, '
+               'a returned result is not altered by a later call, and a repeated call returns the identical result']
 MIN_EVALS = {
-    'quick': {'interp.step<=target': 8500, 'interp.ratio-integer': 8500, 'interp.retained-samples': 4500,
-              'interp.subsequence': 4000, 'interp.range': 8500, 'interp.duration<2steps': 8500,
-              'interp.even-length': 4000, 'interp_obj.step<=target': 2000, 'interp_obj.duration<2steps': 2000,
-              'interp_obj.retained-samples': 1000, 'interp_obj.subsequence': 900,
-              'fourier.step<=target': 2400, 'fourier.ratio-integer': 2400, 'fourier.bandlimited-exact': 2000,
-              'interp.via-gen_response_spectrum': 120},
-    'thorough': {'interp.step<=target': 180000, 'interp.ratio-integer': 180000, 'interp.retained-samples': 90000,
-                 'interp.subsequence': 80000, 'interp.range': 180000, 'interp.duration<2steps': 180000,
-                 'interp.even-length': 80000, 'interp_obj.step<=target': 45000, 'interp_obj.duration<2steps': 45000,
-                 'interp_obj.retained-samples': 20000, 'interp_obj.subsequence': 18000,
-                 'fourier.step<=target': 28000, 'fourier.ratio-integer': 28000, 'fourier.bandlimited-exact': 22000,
-                 'interp.via-gen_response_spectrum': 2500}}
+    'quick': {'interp.step<=target': 12000, 'interp.ratio-integer': 12000, 'interp.retained-samples': 7000,
+              'interp.subsequence': 5500, 'interp.range': 12000, 'interp.duration<2steps': 12000,
+              'interp.even-length': 6000, 'interp.args-unchanged': 12000,
+              'interp_obj.step<=target': 2500, 'interp_obj.duration<2steps': 2500, 'interp_obj.args-unchanged': 2500,
+              'interp_obj.retained-samples': 1300, 'interp_obj.subsequence': 1100,
+              'fourier.step<=target': 2500, 'fourier.ratio-integer': 2500, 'fourier.bandlimited-exact': 2000,
+              'fourier.args-unchanged': 2500, 'interp.via-gen_response_spectrum': 200,
+              'purity.reused-array-unchanged': 800, 'purity.caller-array-unchanged': 200, 'history.monitored-call': 800,
+              'state.first-result-intact-after-second-call': 400, 'state.repeat-call-identical': 400},
+    'thorough': {'interp.step<=target': 250000, 'interp.ratio-integer': 250000, 'interp.retained-samples': 130000,
+                 'interp.subsequence': 110000, 'interp.range': 250000, 'interp.duration<2steps': 250000,
+                 'interp.even-length': 120000, 'interp.args-unchanged': 250000,
+                 'interp_obj.step<=target': 50000, 'interp_obj.duration<2steps': 50000, 'interp_obj.args-unchanged': 50000,
+                 'interp_obj.retained-samples': 25000, 'interp_obj.subsequence': 20000,
+                 'fourier.step<=target': 30000, 'fourier.ratio-integer': 30000, 'fourier.bandlimited-exact': 22000,
+                 'fourier.args-unchanged': 30000, 'interp.via-gen_response_spectrum': 4000,
+                 'purity.reused-array-unchanged': 15000, 'purity.caller-array-unchanged': 4000,
+                 'history.monitored-call': 16000, 'state.first-result-intact-after-second-call': 10000,
+                 'state.repeat-call-identical': 10000}}
 CTX = None
 K6 = 'C14/fourier-decimation-nondivisible'
 K6_ACCEPT_PARITY_TRIM = True   # also accept the FFT grid of len(y)+1 points when even=True (see ASSUMPTIONS / k6_explains)
 VIA = {'consumer': False}
-MAX_ORACLE_N = 3000          # projection is O(N^2); longer Fourier inputs are counted, not judged
+MAX_ORACLE_N = 300000        # longer Fourier inputs are counted, not judged
 
 
 def n_shards(tier):
@@ -63,9 +84,42 @@ def n_shards(tier):
 
 
 # ---------------------------------------------------------------------------------------------------- monitors
-def _wit(fn, values, dt, target, even, **kw):
-    d = {'fn': fn, 'values': np.asarray(values), 'container': type(values).__name__, 'dt': dt, 'target_dt': target,
-         'even': even}
+def _form(v):
+    f = []
+    if v.ndim == 1 and v.size > 1 and v.strides[0] != v.itemsize:
+        f.append('stride %d' % (v.strides[0] // v.itemsize))
+    if not v.flags.writeable:
+        f.append('readonly')
+    return ' '.join(f)
+
+
+def _snapshot(values):
+    """Copy of an array argument taken at call entry: what the call is judged against, and the purity reference."""
+    if isinstance(values, np.ndarray):
+        return {'kind': 'ndarray', 'copy': values.copy(), 'form': _form(values)}
+    if isinstance(values, (list, tuple)):
+        return {'kind': type(values).__name__, 'copy': list(values), 'form': ''}     # elements are immutable numbers
+    return {'kind': type(values).__name__, 'copy': values, 'form': ''}
+
+
+def _unchanged(values, snap):
+    """Bit-for-bit comparison of an argument with its entry snapshot."""
+    c = snap['copy']
+    if snap['kind'] == 'ndarray':
+        return (isinstance(values, np.ndarray) and values.dtype == c.dtype and values.shape == c.shape
+                and values.tobytes() == c.tobytes() and _form(values) == snap['form'])
+    if snap['kind'] in ('list', 'tuple'):
+        return (type(values).__name__ == snap['kind'] and len(values) == len(c)
+                and all(type(a) is type(b) and (a == b or (a != a and b != b)) for a, b in zip(values, c)))
+    return True
+
+
+def _wit(fn, snap, dt, target, even, **kw):
+    c = snap['copy']
+    d = {'fn': fn, 'values': np.asarray(c), 'container': snap['kind'], 'form': snap['form'], 'dt': dt,
+         'target_dt': target, 'even': even}
+    if snap['kind'] in ('list', 'tuple'):
+        d['py_values'] = list(c)
     d.update(kw)
     return d
 
@@ -84,15 +138,23 @@ def _domain(ctx, prefix, x, dt, target):
     return ok
 
 
-def check_interp(ctx, prefix, fn, values, dt, target, even, y, new_dt):
-    """The assertion list of the statement for the interpolation variants."""
+def _float_copy(snap):
     try:
-        x = np.asarray(values, dtype=float)
+        x = np.asarray(snap['copy'], dtype=float)
     except Exception:
+        return None
+    return x if x.ndim == 1 else None
+
+
+def check_interp(ctx, prefix, fn, snap, dt, target, even, y, new_dt):
+    """The assertion list of the statement for the interpolation variants, judged against the entry snapshot.
+    Returns True when the call was inside the quantifier."""
+    x = _float_copy(snap)
+    if x is None:
         ctx.observe(prefix + 'out-of-domain call (not judged)')
-        return
+        return False
     if not _domain(ctx, prefix, x, dt, target):
-        return
+        return False
     dt = float(dt)
     target = float(target)
     n = len(x)
@@ -103,12 +165,13 @@ def check_interp(ctx, prefix, fn, values, dt, target, even, y, new_dt):
         shape_ok = y.ndim == 1
     except Exception:
         shape_ok = False
-    w = lambda **kw: _wit(fn, values, dt, target, even, got_len=(len(y) if shape_ok else None),
+    w = lambda **kw: _wit(fn, snap, dt, target, even, got_len=(len(y) if shape_ok else None),
                           got_dt=(new_dt if shape_ok else repr(new_dt)), **kw)
     if not shape_ok:
         ctx.violation(prefix + 'returns', w(), 'result is not (1-d values, step): %r' % (type(y),))
-        return
-    head = '%s(n=%d, dt=%r, target_dt=%r, even=%r) -> (len %d, dt %r)' % (fn, n, dt, target, even, len(y), new_dt)
+        return True
+    head = '%s(n=%d %s%s, dt=%r, target_dt=%r, even=%r) -> (len %d, dt %r)' % (
+        fn, n, snap['kind'], (' ' + snap['form']) if snap['form'] else '', dt, target, even, len(y), new_dt)
     ctx.check(O.step_rule(new_dt, target), prefix + 'step<=target', w, head + ': returned step exceeds the target')
     kind, k = O.ratio_kind(dt, new_dt)
     ctx.check(kind is not None, prefix + 'ratio-integer', w,
@@ -134,9 +197,10 @@ def check_interp(ctx, prefix, fn, values, dt, target, even, y, new_dt):
             ctx.observe(prefix + 'decimate: a coarser admissible step exists (float quotient; allowed by the statement)')
     if VIA['consumer'] and prefix == 'interp.':
         ctx.ok('interp.via-gen_response_spectrum')
+    return True
 
 
-def k6_explains(N, dt, new_dt, even, y, a, b, Ks, scale, skip):
+def k6_explains(N, dt, new_dt, even, y, a, b, Ks, scale, skip, tol=None):
     """Mechanism classifier of the open finding C14/fourier-decimation-nondivisible (DESIGN.md C14 (g)): Fourier
     variant, decimating by m, npts % m != 0, and the output equals the analytic band-limited signal sampled at spacing
     npts*dt/L, L = len(y) (or len(y)+1 when an even length was requested, the FFT grid before the parity trim) - i.e.
@@ -146,23 +210,21 @@ def k6_explains(N, dt, new_dt, even, y, a, b, Ks, scale, skip):
         return False
     for L in ((len(y), len(y) + 1) if (even and K6_ACCEPT_PARITY_TRIM) else (len(y),)):
         exp = O.trig_eval(a, b, Ks, np.arange(len(y)) / float(L), skip)
-        if bool(np.all(np.abs(y - exp) <= O.BAND_RTOL * scale)):
+        if bool(np.all(np.abs(y - exp) <= (O.BAND_RTOL * scale if tol is None else tol))):
             return L
     return False
 
 
-def check_fourier(ctx, asig, target, even, result):
+def check_fourier(ctx, snap, dt, target, even, result):
+    """Returns True when the call was inside the quantifier."""
     prefix = 'fourier.'
     fn = 'resample_to_approx_dt'
-    try:
-        values = asig.values
-        dt = asig.dt
-        x = np.asarray(values, dtype=float)
-    except Exception:
+    x = _float_copy(snap)
+    if x is None:
         ctx.observe(prefix + 'out-of-domain call (not judged)')
-        return
+        return False
     if not _domain(ctx, prefix, x, dt, target):
-        return
+        return False
     dt = float(dt)
     target = float(target)
     N = len(x)
@@ -174,9 +236,9 @@ def check_fourier(ctx, asig, target, even, result):
     except Exception:
         shape_ok = False
     if not shape_ok:
-        ctx.violation(prefix + 'returns', _wit(fn, values, dt, target, even), 'result has no 1-d values / step')
-        return
-    w = lambda **kw: _wit(fn, values, dt, target, even, got_len=len(y), got_dt=new_dt, **kw)
+        ctx.violation(prefix + 'returns', _wit(fn, snap, dt, target, even), 'result has no 1-d values / step')
+        return True
+    w = lambda **kw: _wit(fn, snap, dt, target, even, got_len=len(y), got_dt=new_dt, **kw)
     head = '%s(n=%d, dt=%r, target_dt=%r, even=%r) -> (len %d, dt %r)' % (fn, N, dt, target, even, len(y), new_dt)
     ctx.check(O.step_rule(new_dt, target), prefix + 'step<=target', w, head + ': returned step exceeds the target')
     kind, k = O.ratio_kind(dt, new_dt)
@@ -185,42 +247,48 @@ def check_fourier(ctx, asig, target, even, result):
     if even and len(y) % 2:
         ctx.observe(prefix + 'odd length with even=True (not part of the Fourier statement)')
     if kind is None:
-        return
+        return True
     ctx.observe('fourier.cover even=%s npts-%s %s-by-%s%s' % (
-        even, 'odd' if N % 2 else 'even', kind, 'odd' if k % 2 else 'even',
+        bool(even), 'odd' if N % 2 else 'even', kind, 'odd' if k % 2 else 'even',
         '' if kind == 'refine' else (' divisible' if N % k == 0 else ' non-divisible')))
     # -- periodic band-limited reproduction
     if N > MAX_ORACLE_N:
         ctx.observe(prefix + 'input too long for the projection oracle (not judged)')
-        return
+        return True
     scale = float(np.max(np.abs(x)))
+    # float32 samples are judged to the rounding of float32 arithmetic (64*eps32), float64 / integer samples to 1e-10
+    f32 = snap['kind'] == 'ndarray' and snap['copy'].dtype == np.float32
+    rtol = O.BAND_RTOL32 if f32 else O.BAND_RTOL
     a, b, nyq = O.harmonics(x)
-    Ks = O.band_index(a, b, nyq, scale)
+    Ks = O.band_index(a, b, nyq, scale, O.BAND_ZERO32 if f32 else O.BAND_ZERO)
     below_old = 2 * Ks < N
     below_new = 2.0 * Ks * new_dt < N * dt * (1 - 1e-9)
     if not (below_old and below_new):
         ctx.observe(prefix + 'input not band-limited below the Nyquist frequencies (not judged)')
-        return
+        return True
     skip = 1e-15 * scale
     tau = np.arange(len(y)) * new_dt / (N * dt)
     exp = O.trig_eval(a, b, Ks, tau, skip)
     err = np.abs(y - exp)
-    allowed = O.BAND_RTOL * scale
+    allowed = rtol * scale
     okk = bool(np.all(err <= allowed))
     fin = None
     if not okk:
-        L = k6_explains(N, dt, new_dt, even, y, a, b, Ks, scale, skip)
+        L = k6_explains(N, dt, new_dt, even, y, a, b, Ks, scale, skip, tol=allowed)
         if L:
             fin = K6
             ctx.observe('fourier.K6 matched with FFT grid of %s points' % ('len(y)' if L == len(y) else 'len(y)+1 (parity trim)'))
     if okk:
         ctx.ok(prefix + 'bandlimited-exact')
+        if f32:
+            ctx.observe(prefix + 'float32 samples judged with 64*eps32')
     else:
         i = int(np.argmax(np.where(np.isnan(err), np.inf, err)))
         ctx.violation(prefix + 'bandlimited-exact',
                       w(band_index=Ks, worst_index=i, got=float(y[i]), expected=float(exp[i]), allowed=allowed),
                       head + ': band-limited (K=%d) periodic signal not reproduced at instant %d*new_dt: got %r expected %r '
                       '(|diff| %.3g > %.3g)' % (Ks, i, float(y[i]), float(exp[i]), float(err[i]), allowed), finding=fin)
+    return True
 
 
 def _parse(args, kwargs, names, defaults):
@@ -236,52 +304,100 @@ def _parse(args, kwargs, names, defaults):
 
 
 _DEF = {'target_dt': 0.01, 'even': True}
+_ARR = ('values', 'dt', 'target_dt', 'even')
+_OBJ = ('asig', 'target_dt', 'even')
+
+
+def _pre_array(args, kwargs):
+    try:
+        values = _parse(args, kwargs, _ARR, _DEF)[0]
+        return {'snap': _snapshot(values)}
+    except Exception:
+        return None
+
+
+def _pre_obj(args, kwargs):
+    """Snapshot of the object's primary data (values, dt) at call entry - never its derived caches."""
+    try:
+        asig = _parse(args, kwargs, _OBJ, _DEF)[0]
+        return {'snap': _snapshot(asig.values), 'dt': asig.dt}
+    except Exception:
+        return None
+
+
+def _purity_array(ctx, prefix, fn, values, pre, dt, target, even):
+    ctx.check(_unchanged(values, pre['snap']), prefix + 'args-unchanged',
+              lambda: _wit(fn, pre['snap'], dt, target, even, values_after=np.asarray(values)),
+              '%s(dt=%r, target_dt=%r, even=%r) modified its array argument (%s %s)'
+              % (fn, dt, target, even, pre['snap']['kind'], pre['snap']['form']))
+
+
+def _purity_obj(ctx, prefix, fn, asig, pre, target, even):
+    try:
+        same = _unchanged(asig.values, pre['snap']) and asig.dt == pre['dt'] and type(asig.dt) is type(pre['dt'])
+    except Exception:
+        same = False
+    ctx.check(same, prefix + 'args-unchanged',
+              lambda: _wit(fn, pre['snap'], pre['dt'], target, even, values_after=np.asarray(asig.values), dt_after=asig.dt),
+              '%s(target_dt=%r, even=%r) modified the values or the step of the signal object it was given' % (fn, target, even))
 
 
 def _post_interp_array(args, kwargs, result, pre):
-    values, dt, target, even = _parse(args, kwargs, ('values', 'dt', 'target_dt', 'even'), _DEF)
+    values, dt, target, even = _parse(args, kwargs, _ARR, _DEF)
+    if pre is None:
+        CTX.observe('interp.out-of-domain call (not judged)')
+        return
     try:
         y, new_dt = result
     except Exception:
         y, new_dt = result, None
-    check_interp(CTX, 'interp.', 'interp_array_to_approx_dt', values, dt, target, even, y, new_dt)
+    if check_interp(CTX, 'interp.', 'interp_array_to_approx_dt', pre['snap'], dt, target, even, y, new_dt):
+        _purity_array(CTX, 'interp.', 'interp_array_to_approx_dt', values, pre, dt, target, even)
 
 
 def _post_interp_obj(args, kwargs, result, pre):
-    asig, target, even = _parse(args, kwargs, ('asig', 'target_dt', 'even'), _DEF)
-    try:
-        values, dt = asig.values, asig.dt
-        y, new_dt = result.values, result.dt
-    except Exception:
+    asig, target, even = _parse(args, kwargs, _OBJ, _DEF)
+    if pre is None:
         CTX.observe('interp_obj.out-of-domain call (not judged)')
         return
-    check_interp(CTX, 'interp_obj.', 'interp_to_approx_dt', values, dt, target, even, y, new_dt)
+    try:
+        y, new_dt = result.values, result.dt
+    except Exception:
+        y, new_dt = result, None
+    if check_interp(CTX, 'interp_obj.', 'interp_to_approx_dt', pre['snap'], pre['dt'], target, even, y, new_dt):
+        _purity_obj(CTX, 'interp_obj.', 'interp_to_approx_dt', asig, pre, target, even)
 
 
 def _post_resample(args, kwargs, result, pre):
-    asig, target, even = _parse(args, kwargs, ('asig', 'target_dt', 'even'), _DEF)
-    check_fourier(CTX, asig, target, even, result)
+    asig, target, even = _parse(args, kwargs, _OBJ, _DEF)
+    if pre is None:
+        CTX.observe('fourier.out-of-domain call (not judged)')
+        return
+    if check_fourier(CTX, pre['snap'], pre['dt'], target, even, result):
+        _purity_obj(CTX, 'fourier.', 'resample_to_approx_dt', asig, pre, target, even)
 
 
 def _exc_hook(prefix, fn, objlevel):
     def hook(args, kwargs, exc, pre):
         try:
             if objlevel:
-                asig, target, even = _parse(args, kwargs, ('asig', 'target_dt', 'even'), _DEF)
-                values, dt = asig.values, asig.dt
+                asig, target, even = _parse(args, kwargs, _OBJ, _DEF)
+                dt = pre['dt']
             else:
-                values, dt, target, even = _parse(args, kwargs, ('values', 'dt', 'target_dt', 'even'), _DEF)
-            x = np.asarray(values, dtype=float)
+                values, dt, target, even = _parse(args, kwargs, _ARR, _DEF)
+            x = _float_copy(pre['snap'])
         except Exception:
+            x = None
+        if x is None:
             CTX.observe(prefix + 'out-of-domain call (not judged)')
             return
         if not _domain(CTX, prefix, x, dt, target):
             return
         import traceback
         tb = ''.join(traceback.format_exception(type(exc), exc, exc.__traceback__)[-4:])
-        CTX.violation(prefix + 'returns', _wit(fn, values, dt, target, even, exception=repr(exc)),
-                      '%s(n=%d, dt=%r, target_dt=%r, even=%r) raised %r on in-domain input\n%s'
-                      % (fn, len(x), dt, target, even, exc, tb))
+        CTX.violation(prefix + 'returns', _wit(fn, pre['snap'], dt, target, even, exception=repr(exc)),
+                      '%s(n=%d %s %s, dt=%r, target_dt=%r, even=%r) raised %r on in-domain input\n%s'
+                      % (fn, len(x), pre['snap']['kind'], pre['snap']['form'], dt, target, even, exc, tb))
     return hook
 
 
@@ -290,11 +406,11 @@ def install(ctx):
     CTX = ctx
     import eqsig
     ts = eqsig.fns.time_step
-    attach.wrap(ts, 'interp_array_to_approx_dt', _post_interp_array,
+    attach.wrap(ts, 'interp_array_to_approx_dt', _post_interp_array, pre=_pre_array,
                 on_exception=_exc_hook('interp.', 'interp_array_to_approx_dt', False))
-    attach.wrap(ts, 'interp_to_approx_dt', _post_interp_obj,
+    attach.wrap(ts, 'interp_to_approx_dt', _post_interp_obj, pre=_pre_obj,
                 on_exception=_exc_hook('interp_obj.', 'interp_to_approx_dt', True))
-    attach.wrap(ts, 'resample_to_approx_dt', _post_resample,
+    attach.wrap(ts, 'resample_to_approx_dt', _post_resample, pre=_pre_obj,
                 on_exception=_exc_hook('fourier.', 'resample_to_approx_dt', True))
 
 
@@ -306,6 +422,8 @@ FLOAT_TRAPS = [(0.07, 0.01), (0.03, 0.01), (0.06, 0.02), (0.3, 0.1), (0.7, 0.1),
                (0.58, 0.01), (1.1, 0.1), (0.15, 0.05), (0.09, 0.03), (0.006, 0.002), (0.021, 0.007), (0.14, 0.02),
                (0.28, 0.04), (0.056, 0.008), (1.13, 0.01), (0.069, 0.023), (0.0035, 0.0005)]
 UNITS = [0.1, 0.01, 0.001, 0.05, 0.02, 0.005, 0.0025]
+UNITS_WIDE = [1e-9, 3e-9, 1e-7, 1e-5, 10.0, 100.0, 1000.0]           # time steps 1e-9 .. 1e3
+K_WIDE = [1, 2, 3, 5, 6, 7, 9, 10, 12, 29, 57, 58]
 GRID_DT = [0.001, 0.002, 0.004, 0.005, 0.01, 0.02, 0.025, 0.05, 0.1]
 GRID_T = [0.001, 0.002, 0.003, 0.004, 0.005, 0.006, 0.007, 0.01, 0.015, 0.02, 0.03, 0.04, 0.05, 0.07, 0.1, 0.3]
 
@@ -321,6 +439,11 @@ def static_pairs():
             for big in sorted({k * u, float('%.10g' % (k * u))}):
                 P.append((big, u, 'decimal-multiple'))
                 P.append((u, big, 'decimal-multiple'))
+    for u in UNITS_WIDE:
+        for k in K_WIDE:
+            for big in sorted({k * u, float('%.10g' % (k * u))}):
+                P.append((big, u, 'decimal-multiple-wide-dt'))
+                P.append((u, big, 'decimal-multiple-wide-dt'))
     for a in GRID_DT:
         for b in GRID_T:
             P.append((a, b, 'decimal-grid'))
@@ -344,7 +467,7 @@ def _step_ulps(v, j):
     return v
 
 
-def random_pair(rng, max_ratio=300.0):
+def random_pair(rng, max_ratio=300.0, rescale=True):
     fam = FAMILIES[int(rng.choice(len(FAMILIES), p=FAM_P))]
     dt = gen.dt(rng)
     if fam in ('near-int-refine', 'near-int-decimate'):
@@ -374,15 +497,33 @@ def random_pair(rng, max_ratio=300.0):
                 break
     else:
         target = dt
+    if rescale:
+        r = rng.random()
+        if r < 0.15:                                     # exact rescaling: the quotient keeps its bits
+            s = 2.0 ** int(rng.integers(-20, 11))
+            dt, target, fam = dt * s, target * s, fam + '*2^j'
+        elif r < 0.30:                                   # decimal rescaling: time steps 1e-9 .. 1e3
+            s = 10.0 ** rng.uniform(-6.5, 3.0)
+            same = target == dt
+            dt, target, fam = dt * s, (dt * s if same else target * s), fam + '*10^u'
     return float(dt), float(target), fam
 
 
-def lengths(rng, dt, target, count, span=200):
-    """Lengths inside the quantifier: from ceil(2*max(dt,target)/dt)+1 upwards; odd and even; for decimations both
-    divisible and not divisible by the (anticipated) factor."""
+POW2 = [v for p in range(2, 12) for v in (2 ** p - 1, 2 ** p, 2 ** p + 1)]
+
+
+def n_min(dt, target):
+    """Shortest record of the quantifier."""
     nmin = int(np.ceil(2.0 * max(dt, target) / dt)) + 1
     if (nmin - 1) * dt < 2.0 * max(dt, target):
         nmin += 1
+    return max(nmin, 3)
+
+
+def lengths(rng, dt, target, count, span=200):
+    """Lengths inside the quantifier: from ceil(2*max(dt,target)/dt)+1 upwards; odd and even; around powers of two; for
+    decimations both divisible and not divisible by the (anticipated) factor."""
+    nmin = n_min(dt, target)
     m = int(np.floor(target / dt * (1 + 1e-9)))
     out = []
     for c in range(count):
@@ -394,17 +535,107 @@ def lengths(rng, dt, target, count, span=200):
             n = max(nmin + (-nmin) % m, n - n % m)         # divisible by the factor
         elif m >= 3 and r < 0.5:
             n = max(nmin + (-nmin) % (m - 1), n - n % (m - 1))   # divisible by the next smaller factor (float traps)
+        elif r > 0.88:
+            cand = [v for v in POW2 if nmin <= v <= nmin + 2200]
+            if cand:
+                n = cand[int(rng.integers(min(len(cand), 9)))]
         out.append(int(n))
     return out
 
 
-def make_record(rng, n):
-    cls = ['noise', 'walk', 'quake', 'intnoise', 'sine', 'chirp', 'plateau', 'impulse', 'alt', 'zeropad', 'step', 'const',
-           'ramp'][int(rng.choice(13, p=[.22, .12, .12, .1, .06, .06, .06, .05, .04, .05, .04, .02, .06]))]
+REC_CLS = ['noise', 'walk', 'quake', 'intnoise', 'sine', 'chirp', 'plateau', 'impulse', 'alt', 'zeropad', 'step', 'const',
+           'ramp', 'plateau-ends', 'extreme-first', 'extreme-last', 'sign-change-at-end']
+REC_P = [.18, .10, .10, .08, .05, .05, .05, .04, .04, .04, .03, .02, .06, .04, .04, .04, .04]
+
+
+def make_record(rng, n, scales=True):
+    cls = REC_CLS[int(rng.choice(len(REC_CLS), p=REC_P))]
     if cls == 'ramp':       # strictly increasing: every sample distinct, position errors cannot hide
-        return np.arange(n, dtype=float) * (1.0 if rng.random() < 0.5 else float(rng.uniform(0.1, 3.0))), cls
-    x, cls = gen.record(rng, n, cls=cls)
-    return x, cls
+        x = np.arange(n, dtype=float) * (1.0 if rng.random() < 0.5 else float(rng.uniform(0.1, 3.0)))
+    elif cls == 'plateau-ends':
+        x = rng.normal(size=n)
+        a = int(rng.integers(1, max(2, n // 3 + 1)))
+        b = int(rng.integers(1, max(2, n // 3 + 1)))
+        x[:a] = x[a - 1]
+        x[n - b:] = x[n - b]
+    elif cls in ('extreme-first', 'extreme-last'):
+        x = rng.normal(size=n)
+        x[0 if cls == 'extreme-first' else n - 1] = (np.max(np.abs(x)) + 1.0) * (1.0 if rng.random() < 0.5 else -1.0)
+    elif cls == 'sign-change-at-end':
+        x = np.abs(rng.normal(size=n)) + 0.1
+        x[n - 1] = -x[n - 1]
+        if rng.random() < 0.5:
+            x = -x
+    else:
+        x, cls = gen.record(rng, n, cls=cls)
+    if scales:
+        r = rng.random()
+        if r < 0.10:
+            x, cls = x * 10.0 ** rng.uniform(-12, 12), cls + '*amp(1e-12..1e12)'
+        elif r < 0.15:
+            m = float(np.max(np.abs(x))) or 1.0
+            x, cls = x / m * 10.0 ** rng.uniform(-12, -9), cls + '*micro'
+        elif r < 0.20:
+            m = float(np.max(np.abs(x))) or 1.0
+            x, cls = x / m * 10.0 ** rng.uniform(-4, -1) + 10.0 ** rng.uniform(3, 8) * (1.0 if rng.random() < 0.5 else -1.0), \
+                cls + '+offset'
+    return np.asarray(x, dtype=float), cls
+
+
+INT_FORMS = {'i64': np.int64, 'i32': np.int32, 'i16': np.int16, 'i8': np.int8, 'u8': np.uint8, 'u16': np.uint16}
+FORMS = ['f32', 'i64', 'i32', 'i16', 'i8', 'u8', 'u16', 'list', 'tuple', 'list-int', 'list-mixed', 'view-stride2',
+         'view-reversed', 'readonly', 'readonly-view']
+
+
+def make_form(rng, x, form):
+    """The record in another container / dtype / memory layout. Integer dtypes use the whole range of the dtype."""
+    n = len(x)
+    if form == 'f32':
+        return np.asarray(x, dtype=np.float32)
+    if form in INT_FORMS:
+        dtp = INT_FORMS[form]
+        lo, hi = (-2 ** 52, 2 ** 52) if form == 'i64' else (int(np.iinfo(dtp).min), int(np.iinfo(dtp).max))
+        p = float(np.ptp(x))
+        if p == 0 or rng.random() < 0.4:
+            v = rng.integers(lo, hi, size=n, endpoint=True)
+        else:                                               # the record's shape stretched over the whole dtype range
+            z = (x - np.min(x)) / p
+            v = np.clip(np.rint(lo + z * (float(hi) - float(lo))), lo, hi)
+        return np.asarray(v).astype(dtp)
+    if form == 'list':
+        return [float(v) for v in x]
+    if form == 'tuple':
+        return tuple(float(v) for v in x)
+    if form == 'list-int':
+        s = 1000.0 / (float(np.max(np.abs(x))) or 1.0)
+        return [int(round(float(v) * s)) for v in x]
+    if form == 'list-mixed':
+        return [(int(round(float(v))) if i % 2 else float(v)) for i, v in enumerate(x)]
+    if form in ('view-stride2', 'readonly-view'):
+        buf = np.empty(2 * n)
+        buf[::2] = x
+        buf[1::2] = rng.normal(size=n) * 1e3
+        v = buf[::2]
+        if form == 'readonly-view':
+            v.flags.writeable = False
+        return v
+    if form == 'view-reversed':
+        return np.ascontiguousarray(x[::-1])[::-1]
+    if form == 'readonly':
+        v = np.array(x, copy=True)
+        v.flags.writeable = False
+        return v
+    raise ValueError(form)
+
+
+def pick_even(rng, even):
+    """even as bool (mostly), numpy bool or 0/1."""
+    r = rng.random()
+    if r < 0.8:
+        return bool(even)
+    if r < 0.9:
+        return np.bool_(even)
+    return int(bool(even))
 
 
 def _swallow(f, *a, **k):
@@ -415,43 +646,96 @@ def _swallow(f, *a, **k):
         return None
 
 
-def drive_interp(eqsig, ctx, rng, dt, target, fam, n, even, c):
+def call_array(eqsig, rng, vals, dt, target, even):
+    r = rng.random()
+    if target == 0.01 and r < 0.3:
+        if even is True and r < 0.15:
+            return _swallow(eqsig.interp_array_to_approx_dt, vals, dt)                       # both defaults
+        return _swallow(eqsig.interp_array_to_approx_dt, vals, dt, even=even)                # default target_dt=0.01
+    if r < 0.25:
+        return _swallow(eqsig.interp_array_to_approx_dt, vals, dt, target, even)             # positional
+    if r < 0.45 and even is True:
+        return _swallow(eqsig.interp_array_to_approx_dt, vals, dt, target_dt=target)         # default even=True
+    if r < 0.55:
+        return _swallow(eqsig.interp_array_to_approx_dt, values=vals, dt=dt, target_dt=target, even=even)
+    return _swallow(eqsig.interp_array_to_approx_dt, vals, dt, target_dt=target, even=even)
+
+
+def call_obj(f, rng, asig, target, even):
+    """interp_to_approx_dt / resample_to_approx_dt share the signature (asig, target_dt=0.01, even=True)."""
+    r = rng.random()
+    if target == 0.01 and r < 0.3:
+        return _swallow(f, asig, even=even)
+    if r < 0.3:
+        return _swallow(f, asig, target, even)
+    if r < 0.45 and even is True:
+        return _swallow(f, asig, target)
+    if r < 0.6:
+        return _swallow(f, asig=asig, target_dt=target, even=even)
+    return _swallow(f, asig, target, even=even)
+
+
+def make_sig(eqsig, ctx, vals, dt):
+    try:
+        return eqsig.AccSignal(vals, dt)
+    except Exception:
+        ctx.observe('driver: AccSignal construction failed (not this property)')
+        return None
+
+
+def drive_interp(eqsig, ctx, rng, dt, target, fam, n, even, c, form=None):
     x, rcls = make_record(rng, n)
-    nontriv = bool(np.ptp(x) > 0)
     mode = 'array'
     if c % 4 == 3:
         mode = 'object'
     elif c % 8 == 1 and target < dt and dt / target <= 12 and n <= 400:
         mode = 'consumer'
-    ctx.case(core.digest(x, dt, target, even, mode), nontrivial=nontriv, cls='interp/%s/%s' % (mode, fam),
+    vals = x
+    if form is None and rng.random() < 0.3:
+        form = FORMS[int(rng.integers(len(FORMS)))]
+    if form is not None:
+        vals = make_form(rng, x, form)
+    xv = np.asarray(vals, dtype=float)
+    nontriv = bool(np.ptp(xv) > 0)
+    even = pick_even(rng, even)
+    ctx.case(core.digest(xv, dt, target, bool(even), mode, form), nontrivial=nontriv,
+             cls='interp/%s/%s' % (mode, fam),
              sample={'fn': 'interp:' + mode, 'n': n, 'dt': dt, 'target_dt': target, 'even': even, 'record': rcls,
-                     'head': x[:6]})
+                     'form': form or 'f64', 'head': xv[:6]})
+    ctx.observe('workload form %s' % (form or 'f64'))
     if mode == 'array':
-        vals = x
-        if rng.random() < 0.25:
-            vals, _ = gen.container(rng, x, kinds=('f32', 'i64', 'list', 'tuple'))
-        r = rng.random()
-        if r < 0.25:
-            _swallow(eqsig.interp_array_to_approx_dt, vals, dt, target, even)           # positional
-        elif r < 0.45 and even:
-            _swallow(eqsig.interp_array_to_approx_dt, vals, dt, target_dt=target)       # default even=True
+        if rng.random() < 0.12:
+            # the SAME array object in consecutive calls; every call is judged against its own entry snapshot and the
+            # object is compared with its first state at the end
+            snap0 = _snapshot(vals)
+            call_array(eqsig, rng, vals, dt, target, even)
+            call_array(eqsig, rng, vals, dt, target, not even)
+            if O.in_domain(n, dt, dt):
+                call_array(eqsig, rng, vals, dt, dt, even)
+            call_array(eqsig, rng, vals, dt, target, even)
+            ctx.check(_unchanged(vals, snap0), 'purity.reused-array-unchanged',
+                      lambda: _wit('interp_array_to_approx_dt', snap0, dt, target, even, values_after=np.asarray(vals)),
+                      'array argument changed over four consecutive calls (dt=%r target_dt=%r)' % (dt, target))
         else:
-            _swallow(eqsig.interp_array_to_approx_dt, vals, dt, target_dt=target, even=even)
+            call_array(eqsig, rng, vals, dt, target, even)
     elif mode == 'object':
-        asig = eqsig.AccSignal(x, dt)
-        _swallow(eqsig.interp_to_approx_dt, asig, target, even=even)
+        asig = make_sig(eqsig, ctx, vals, dt)
+        if asig is not None:
+            call_obj(eqsig.interp_to_approx_dt, rng, asig, target, even)
     else:
         # consumer: gen_response_spectrum refines to max(T_min/20, dt/min_dt_ratio) with even=False
-        asig = eqsig.AccSignal(x, dt)
+        asig = make_sig(eqsig, ctx, vals, dt)
+        if asig is None:
+            return
         VIA['consumer'] = True
         try:
-            _swallow(asig.gen_response_spectrum, response_times=np.array([20.0 * target, 40.0 * target + 0.1]),
+            _swallow(asig.gen_response_spectrum, response_times=np.array([20.0 * target, 40.0 * target + 0.1 * dt / 0.01]),
                      min_dt_ratio=1000.0)
         finally:
             VIA['consumer'] = False
 
 
-def synth_bandlimited(rng, N, Kmax, mode):
+def synth_bandlimited(rng, N, Kmax, mode, scales=True):
     """x(t) = a0 + sum_k a_k cos(2 pi k t/P) + b_k sin(2 pi k t/P), harmonics <= Kmax, at most 10 non-zero ones."""
     a = np.zeros(Kmax + 1)
     b = np.zeros(Kmax + 1)
@@ -472,7 +756,15 @@ def synth_bandlimited(rng, N, Kmax, mode):
             (a if rng.random() < 0.5 else b)[k] = 0.0
         if a[k] == 0.0 and b[k] == 0.0:
             a[k] = 1.0
-    amp = 10.0 ** rng.uniform(-3, 3) if rng.random() < 0.3 else 1.0
+    amp = 1.0
+    if scales:
+        r = rng.random()
+        if r < 0.2:
+            amp = 10.0 ** rng.uniform(-3, 3)
+        elif r < 0.35:
+            amp = 10.0 ** rng.uniform(-12, 12)
+        elif r < 0.40 and ks:
+            a[0] = 10.0 ** rng.uniform(1, 3) * (1.0 if rng.random() < 0.5 else -1.0)       # offset on a smaller signal
     a *= amp
     b *= amp
     K = ks[-1] if ks else 0
@@ -480,9 +772,9 @@ def synth_bandlimited(rng, N, Kmax, mode):
     return x, a, b, K
 
 
-def drive_fourier(eqsig, ctx, rng, dt, target, fam, N, even, kmode=None):
-    # pilot call (monitors paused, zeros) only to learn the step the library will return, so that the synthesised
-    # signal can reach the highest admissible harmonic; if it raises, fall back to the bound new_dt <= target
+def pilot_step(eqsig, N, dt, target, even):
+    """Pilot call (monitors paused, zeros) only to learn the step the library will return, so that the synthesised signal
+    can reach the highest admissible harmonic; if it raises, fall back to the bound new_dt <= target."""
     new_dt = None
     try:
         with attach.paused():
@@ -491,11 +783,18 @@ def drive_fourier(eqsig, ctx, rng, dt, target, fam, N, even, kmode=None):
         new_dt = None
     if not (new_dt is not None and 0 < new_dt <= target * (1 + 1e-9)):
         new_dt = target
+    return new_dt
+
+
+def synth_for(eqsig, rng, N, dt, target, even, kmode=None, scales=True, kcap=None):
+    new_dt = pilot_step(eqsig, N, dt, target, even)
     lim = min(N / 2.0, N * dt / (2.0 * new_dt) * (1 - 1e-9))
     Kmax = int(np.ceil(lim)) - 1
+    if kcap is not None:            # very long records: keep k*t/P exact to ~1e-13 in the analytic reference
+        Kmax = min(Kmax, kcap)
     if kmode is None:
         kmode = ['top', 'low', 'top-only', 'const'][int(rng.choice(4, p=[.5, .3, .17, .03]))]
-    x, a, b, K = synth_bandlimited(rng, N, max(Kmax, 0), kmode)
+    x, a, b, K = synth_bandlimited(rng, N, max(Kmax, 0), kmode, scales)
     # oracle self-check (a failure is a harness defect -> shard crash -> INCONCLUSIVE, never a verdict on eqsig)
     A, B, nyq = O.harmonics(x)
     sc = float(np.max(np.abs(x))) or 1.0
@@ -503,12 +802,33 @@ def drive_fourier(eqsig, ctx, rng, dt, target, fam, N, even, kmode=None):
                        and O.band_index(A, B, nyq, sc) == K):
         raise AssertionError('C14 oracle self-check failed: projection does not recover the synthesised harmonics '
                              '(N=%d K=%d)' % (N, K))
-    nontriv = K >= 1
-    ctx.case(core.digest(x, dt, target, even, 'fourier'), nontrivial=nontriv, cls='fourier/%s/%s' % (kmode, fam),
+    return x, K, Kmax, kmode
+
+
+def drive_fourier(eqsig, ctx, rng, dt, target, fam, N, even, kmode=None, kcap=None):
+    x, K, Kmax, kmode = synth_for(eqsig, rng, N, dt, target, even, kmode, kcap=kcap)
+    form = None
+    vals = x
+    r = rng.random()
+    if r < 0.06:
+        form = ['list', 'tuple', 'view-stride2', 'view-reversed', 'readonly'][int(rng.integers(5))]
+        vals = make_form(rng, x, form)                   # same float64 numbers: still band-limited
+    elif r < 0.12:
+        form = 'f32'                                     # float32-rounded samples, judged with 64*eps32
+        vals = make_form(rng, x, form)
+    elif r < 0.18:
+        # integer records of every width (quantised: band-limited only where every harmonic of the record is below
+        # both Nyquist frequencies, i.e. odd npts without decimation; otherwise only the step rule is judged)
+        form = ['i64', 'i32', 'i16', 'i8', 'u8', 'u16', 'list-int'][int(rng.integers(7))]
+        vals = make_form(rng, x, form)
+    even = pick_even(rng, even)
+    ctx.case(core.digest(np.asarray(vals, dtype=float), dt, target, bool(even), 'fourier', form), nontrivial=K >= 1,
+             cls='fourier/%s/%s' % (kmode, fam),
              sample={'fn': 'resample_to_approx_dt', 'n': N, 'dt': dt, 'target_dt': target, 'even': even, 'K': K,
-                     'Kmax': Kmax, 'head': x[:6]})
-    asig = eqsig.AccSignal(x, dt)
-    _swallow(eqsig.resample_to_approx_dt, asig, target, even=even)
+                     'Kmax': Kmax, 'form': form or 'f64', 'head': x[:6]})
+    asig = make_sig(eqsig, ctx, vals, dt)
+    if asig is not None:
+        call_obj(eqsig.resample_to_approx_dt, rng, asig, target, even)
 
 
 def fourier_matrix():
@@ -529,6 +849,161 @@ def fourier_matrix():
     return M
 
 
+# ------------------------------------------------------------------------------------------ histories and process state
+def _targets_for(rng, dt, n):
+    """A target inside the quantifier for a record of n samples."""
+    for _ in range(20):
+        r = int(rng.integers(6))
+        if r == 0:
+            t = dt / int(rng.integers(1, 6))
+        elif r == 1:
+            t = dt * int(rng.integers(1, 5))
+        elif r == 2:
+            t = dt / (int(rng.integers(1, 6)) * (1.0 + float(rng.choice([-1, 1])) * 10.0 ** (-int(rng.integers(3, 13)))))
+        elif r == 3:
+            t = dt * (int(rng.integers(1, 5)) * (1.0 + float(rng.choice([-1, 1])) * 10.0 ** (-int(rng.integers(3, 13)))))
+        elif r == 4:
+            t = dt * float(rng.uniform(0.2, 4.5))
+        else:
+            t = 0.01
+        if O.in_domain(n, dt, t) and dt / t <= 12:
+            return float(t)
+    return float(dt)
+
+
+def drive_history(eqsig, ctx, rng):
+    """Several monitored calls on one AccSignal (and on twins built from the same caller array / from each other's values)
+    in random order with repeats, interleaved with reads of cached quantities, public mutators and regenerations. Every
+    call is judged by the monitors against the snapshot they take at call entry."""
+    dt = [0.01, 0.005, 0.02, 1.0 / 93, 0.004][int(rng.integers(5))] if rng.random() < 0.7 else gen.dt(rng)
+    N = int(rng.integers(48, 260))
+    x, a, b, K = synth_bandlimited(rng, N, max(1, N // 12), 'top', scales=False)
+    caller = x.copy()
+    snap0 = _snapshot(caller)
+    objs = [make_sig(eqsig, ctx, caller, dt), make_sig(eqsig, ctx, caller, dt)]
+    if objs[0] is None or objs[1] is None:
+        return
+    objs.append(make_sig(eqsig, ctx, objs[0].values, dt))
+    ctx.case(core.digest(x, dt, 'history'), nontrivial=True, cls='history',
+             sample={'fn': 'history on one AccSignal + twins', 'n': N, 'dt': dt, 'head': x[:6]})
+    ops = ['interp', 'resample', 'interp', 'resample', 'spectrum', 'read', 'read', 'reset-same', 'reset-shorter',
+           'reset-longer', 'mutate', 'regen']
+    for step in range(int(rng.integers(6, 14))):
+        o = objs[0] if rng.random() < 0.6 else objs[int(rng.integers(1, 3))]
+        op = ops[int(rng.integers(len(ops)))]
+        try:
+            n_now = len(o.values)
+            dt_now = float(o.dt)
+        except Exception:
+            break
+        even = pick_even(rng, rng.random() < 0.5)
+        if op == 'interp':
+            call_obj(eqsig.interp_to_approx_dt, rng, o, _targets_for(rng, dt_now, n_now), even)
+            ctx.ok('history.monitored-call')
+        elif op == 'resample':
+            call_obj(eqsig.resample_to_approx_dt, rng, o, _targets_for(rng, dt_now, n_now), even)
+            ctx.ok('history.monitored-call')
+        elif op == 'spectrum':
+            VIA['consumer'] = True
+            try:
+                t = dt_now / float(rng.choice([1.5, 2.0, 3.0, 2.9999999, 4.0]))
+                _swallow(o.gen_response_spectrum, response_times=np.array([20.0 * t, 1.0, 2.0]),
+                         min_dt_ratio=float(rng.choice([1000.0, 4.0, 2.0])))
+                _swallow(lambda: o.s_a)
+            finally:
+                VIA['consumer'] = False
+            ctx.ok('history.monitored-call')
+        elif op == 'read':
+            for nm in ('velocity', 'displacement', 'fa_spectrum', 'pga', 'time', 'npts', 'smooth_fa_spectrum')[:int(rng.integers(2, 8))]:
+                _swallow(getattr, o, nm)
+        elif op in ('reset-same', 'reset-shorter', 'reset-longer'):
+            n_new = {'reset-same': n_now, 'reset-shorter': max(24, n_now // 2 + int(rng.integers(0, 5))),
+                     'reset-longer': n_now + int(rng.integers(1, 90))}[op]
+            if rng.random() < 0.7:
+                xn = synth_bandlimited(rng, n_new, max(1, n_new // 12), 'top', scales=False)[0]
+            else:
+                xn = make_record(rng, n_new)[0]
+            _swallow(o.reset_values, xn)                  # a fresh array each time: ownership is C05's business
+        elif op == 'mutate':
+            r = int(rng.integers(5))
+            if r == 0:
+                _swallow(o.add_constant, float(rng.normal()))
+            elif r == 1:
+                _swallow(o.remove_poly, int(rng.integers(0, 3)))
+            elif r == 2:
+                _swallow(o.remove_average)
+            elif r == 3:
+                _swallow(o.add_series, rng.normal(size=n_now) * 0.1)
+            else:
+                _swallow(o.running_average, 3)
+        else:   # explicit regenerations with non-default options
+            _swallow(o.gen_fa_spectrum, p2_plus=int(rng.integers(0, 3)))
+            _swallow(o.generate_displacement_and_velocity_series, trap=bool(rng.random() < 0.5))
+    ctx.check(_unchanged(caller, snap0), 'purity.caller-array-unchanged',
+              lambda: _wit('history', snap0, dt, dt, True, values_after=caller),
+              'the caller array given to AccSignal(...) changed during a history of resampling calls')
+
+
+def drive_back_to_back(eqsig, ctx, rng, pairs):
+    """Two different inputs of the same shape processed back to back while the first result is still held; the first
+    result is compared with its copy AFTER the second call, and a repeat of the first call must return identical bits."""
+    if rng.random() < 0.4:
+        dt, target, fam = pairs[int(rng.integers(len(pairs)))]
+    else:
+        dt, target, fam = random_pair(rng, max_ratio=40.0)
+    if dt / target > 40 or target / dt > 100:
+        return
+    n = lengths(rng, dt, target, 1, span=150)[0]
+    even = bool(rng.random() < 0.5)
+    kind = ['array', 'object', 'fourier'][int(rng.integers(3))]
+    if kind == 'fourier':
+        if n * max(1.0, dt / target) > 40000:
+            return
+        x1 = synth_for(eqsig, rng, n, dt, target, even)[0]
+        x2 = synth_for(eqsig, rng, n, dt, target, even)[0]
+    else:
+        x1 = make_record(rng, n)[0]
+        x2 = make_record(rng, n)[0]
+
+    def run(x):
+        if kind == 'array':
+            r = _swallow(eqsig.interp_array_to_approx_dt, x, dt, target_dt=target, even=even)
+            return None if r is None else (r[0], r[1])
+        s = make_sig(eqsig, ctx, x, dt)
+        r = None if s is None else _swallow(eqsig.interp_to_approx_dt if kind == 'object' else eqsig.resample_to_approx_dt,
+                                            s, target, even=even)
+        return None if r is None else (r.values, r.dt)
+    ctx.case(core.digest(x1, x2, dt, target, even, kind), nontrivial=bool(np.ptp(x1) > 0 or np.ptp(x2) > 0),
+             cls='back-to-back/%s/%s' % (kind, fam),
+             sample={'fn': 'back-to-back:' + kind, 'n': n, 'dt': dt, 'target_dt': target, 'even': even, 'head': x1[:6]})
+    r1 = run(x1)
+    if r1 is None:
+        return
+    try:
+        keep = (np.array(r1[0], copy=True), r1[1])
+    except Exception:
+        return
+    r2 = run(x2)
+    snap1 = _snapshot(x1)
+    w = lambda **kw: dict(_wit({'array': 'interp_array_to_approx_dt', 'object': 'interp_to_approx_dt',
+                                'fourier': 'resample_to_approx_dt'}[kind], snap1, dt, target, even), second_values=x2,
+                          scenario='back-to-back', **kw)
+    intact = isinstance(r1[0], np.ndarray) and r1[0].shape == keep[0].shape and r1[0].tobytes() == keep[0].tobytes() \
+        and r1[1] == keep[1]
+    if intact and r2 is not None and isinstance(r2[0], np.ndarray):
+        intact = not np.shares_memory(r1[0], r2[0])
+    ctx.check(intact, 'state.first-result-intact-after-second-call', w,
+              '%s: the result of the first call changed (or shares memory with the second result) after a second call on a '
+              'different input of the same shape (n=%d dt=%r target_dt=%r even=%r)' % (kind, n, dt, target, even))
+    r3 = run(x1)
+    if r3 is not None:
+        same = isinstance(r3[0], np.ndarray) and r3[0].shape == keep[0].shape and r3[0].tobytes() == keep[0].tobytes() \
+            and r3[1] == keep[1]
+        ctx.check(same, 'state.repeat-call-identical', w,
+                  '%s: repeating the first call after another input gave a different result (n=%d dt=%r target_dt=%r '
+                  'even=%r)' % (kind, n, dt, target, even))
+
+
 def run_shard(ctx):
     eqsig = core.import_eqsig()
     install(ctx)
@@ -540,7 +1015,10 @@ def run_shard(ctx):
     c = ctx.shard
     for i in core.split_range(len(pairs), ctx.shard, ctx.nshards):
         dt, target, fam = pairs[i]
-        for n in lengths(rng, dt, target, reps):
+        ns = lengths(rng, dt, target, reps)
+        if (i // ctx.nshards) % 2 == 0:
+            ns.append(n_min(dt, target))                     # the shortest record of the quantifier, on purpose
+        for n in ns:
             for even in (True, False):
                 c += 1
                 drive_interp(eqsig, ctx, rng, dt, target, fam, n, even, c)
@@ -552,16 +1030,25 @@ def run_shard(ctx):
         even = bool(rng.random() < 0.5)
         c += 1
         drive_interp(eqsig, ctx, rng, dt, target, fam, n, even, c)
-    # long records (realistic lengths), interpolation only
-    for r in range(4 if quick else 40):
-        dt, target, fam = random_pair(rng, max_ratio=60.0)
-        n = lengths(rng, dt, target, 1)[0] + int(rng.integers(2000, 12000))
+    # every container / dtype / layout form at least a few times per shard, array- and object-level
+    for form in FORMS:
+        for r in range(3 if quick else 30):
+            dt, target, fam = random_pair(rng, max_ratio=30.0)
+            n = lengths(rng, dt, target, 1, span=80)[0]
+            c += 1
+            drive_interp(eqsig, ctx, rng, dt, target, fam + '/form', n, bool(rng.random() < 0.5), c, form=form)
+    # long records, interpolation only: realistic lengths and a few past 2**16
+    for r in range(6 if quick else 60):
+        dt, target, fam = random_pair(rng, max_ratio=(60.0 if r >= 2 else 4.0))
+        extra = int(rng.integers(2000, 12000)) if r >= 2 else 2 ** 16 + int(rng.integers(-1, 3000))
+        n = lengths(rng, dt, target, 1)[0] + extra
         c += 4 - c % 4                                       # array mode
-        drive_interp(eqsig, ctx, rng, dt, target, fam + '/long', n, bool(rng.random() < 0.5), c)
+        drive_interp(eqsig, ctx, rng, dt, target, fam + ('/long' if r >= 2 else '/past-2**16'), n,
+                     bool(rng.random() < 0.5), c)
     # a few calls outside the quantifier (target > duration/2): counted by the monitors, never judged
     for r in range(5):
         dt, target, fam = random_pair(rng)
-        nmin = lengths(rng, dt, target, 1, span=0)[0]
+        nmin = n_min(dt, target)
         if nmin - 2 >= 2:
             _swallow(eqsig.interp_array_to_approx_dt, rng.normal(size=nmin - 2), dt, target_dt=target, even=False)
     # ---------------------------------------------------------------- Fourier: matrix + random
@@ -589,17 +1076,39 @@ def run_shard(ctx):
             continue
         done += 1
         drive_fourier(eqsig, ctx, rng, dt, target, fam, N, bool(rng.random() < 0.5))
+    # Fourier on a record past 2**16 samples (projection by FFT), refinement or divisible decimation by a small factor
+    for r in range(1 if quick else 6):
+        dt = gen.dt(rng)
+        f = int(rng.integers(1, 4))
+        if rng.random() < 0.5:
+            target, N = dt / f, 2 ** 16 + int(rng.integers(1, 2000))
+        else:
+            target, N = dt * f, f * (2 ** 16 // f + int(rng.integers(1, 500)))
+        drive_fourier(eqsig, ctx, rng, dt, target, 'past-2**16', N, bool(rng.random() < 0.5), 'top', kcap=300)
+    # ---------------------------------------------------------------- same-object histories, process-wide state
+    for r in range(25 if quick else 500):
+        drive_history(eqsig, ctx, rng)
+    for r in range(60 if quick else 1500):
+        drive_back_to_back(eqsig, ctx, rng, pairs)
     ctx.note('monitored_calls', dict(attach.CALLS))
 
 
 # ---------------------------------------------------------------------------------------------------- replay
 def _rebuild(w):
-    v = np.asarray(w['values'])
     cont = w.get('container', 'ndarray')
-    if cont == 'list':
-        return [float(t) for t in v.tolist()]
-    if cont == 'tuple':
-        return tuple(float(t) for t in v.tolist())
+    if cont in ('list', 'tuple'):
+        vals = w.get('py_values')
+        if vals is None:
+            vals = np.asarray(w['values']).tolist()
+        return list(vals) if cont == 'list' else tuple(vals)
+    v = np.array(w['values'], copy=True)
+    form = w.get('form') or ''
+    if 'stride 2' in form:
+        v = np.repeat(v, 2)[::2]
+    elif 'stride -1' in form:
+        v = np.ascontiguousarray(v[::-1])[::-1]
+    if 'readonly' in form:
+        v.flags.writeable = False
     return v
 
 
@@ -610,10 +1119,28 @@ def replay(w):
     values = _rebuild(w)
     dt, target, even = w['dt'], w['target_dt'], w['even']
     fn = w.get('fn')
-    if fn == 'interp_to_approx_dt':
-        _swallow(eqsig.interp_to_approx_dt, eqsig.AccSignal(values, dt), target, even=even)
-    elif fn == 'resample_to_approx_dt':
-        _swallow(eqsig.resample_to_approx_dt, eqsig.AccSignal(values, dt), target, even=even)
+    f = {'interp_to_approx_dt': eqsig.interp_to_approx_dt, 'resample_to_approx_dt': eqsig.resample_to_approx_dt}.get(fn)
+
+    def run(v):
+        if f is None:
+            r = _swallow(eqsig.interp_array_to_approx_dt, v, dt, target_dt=target, even=even)
+            return None if r is None else (r[0], r[1])
+        r = _swallow(f, eqsig.AccSignal(v, dt), target, even=even)
+        return None if r is None else (r.values, r.dt)
+    if w.get('scenario') == 'back-to-back':
+        r1 = run(values)
+        if r1 is not None:
+            keep = (np.array(r1[0], copy=True), r1[1])
+            r2 = run(np.asarray(w['second_values']))
+            ok1 = r1[0].tobytes() == keep[0].tobytes() and r1[1] == keep[1] and \
+                not (r2 is not None and np.shares_memory(r1[0], r2[0]))
+            ctx.check(ok1, 'state.first-result-intact-after-second-call', w, 'first result changed after the second call')
+            r3 = run(values)
+            if r3 is not None:
+                ctx.check(r3[0].tobytes() == keep[0].tobytes() and r3[1] == keep[1], 'state.repeat-call-identical', w,
+                          'repeated call gave a different result')
+    elif fn == 'history':
+        pass        # the purity monitors of the individual calls carry their own witnesses
     else:
-        _swallow(eqsig.interp_array_to_approx_dt, values, dt, target_dt=target, even=even)
+        run(values)
     return ['%s: %s' % (v['clause'], v['msg']) for v in ctx.violations if not v.get('finding')]
